@@ -174,7 +174,8 @@ def step (f : Flags) (s : St) : IoOp → List Effect × St
   | .system n ok => if f.noExec then ([.error .noExecSystem], s) else ([.exec n ok], s)
   | .getline =>
     match nextLine f s with
-    | (es, s', .err _) => (es ++ [.soft], s')      -- the error is swallowed: getline returns -1 (finding G12-1)
+    | (es, s', .err .noFileReads) => (es ++ [.error .noFileReads], s')   -- errNoFileReads is propagated: the run ends
+    | (es, s', .err _) => (es ++ [.soft], s')      -- any other nextLine error: getline returns -1
     | (es, s', _) => (es, s')
   | .mainLoop => mainLoop f (mainFuel s) s
   | .close n =>
